@@ -783,6 +783,12 @@ func goCode(root string, unit string) string {
 			[]string{"background", "foreground", "Bold", "Strikethrough", "Underline", "Italic", "Code", "Highlight", "Color", "Red", "Link", "CodeBlock", "QuoteBlock", "LinkBlock", "Header", "Bullet"},
 			[]string{"collapse", "Apply", "Indent", "Pad", "DumbWrap", "Wrap", "lineIsOnlyWhitespace", "Snip"})
 		emit("pub/post.go, pub/actor.go, pub/activity.go, pub/failure.go (String, Preview, Name, Timestamp and what they call), style.Problem, ansi.Scrub", text, errs)
+	case "main":
+		header("Model.GoSem", "Model.GoSlices", "Model.GoTerm", "Generated.GoView")
+		text, errs := translateMain(parseFile(root, "main.go"))
+		emit("main.go (printRaw, the size poller, the subcommand goroutine, the key loop, the start-up sequence)", text, errs)
+		text, errs = translateResize(parseFile(root, "ui/ui.go"))
+		emit("ui/ui.go ((*State).SetWidthHeight, the size NewState starts with)", text, errs)
 	default:
 		b.WriteString("-- unknown unit " + unit + "\n")
 	}
